@@ -21,6 +21,7 @@ parameter here.
 -/
 import Vegeta.Model.Quantile
 import Vegeta.Model.TDigestMerge
+import Vegeta.Model.LatencySeq
 import Vegeta.Proofs.QuantileF64
 import Vegeta.Extracted.Facts
 import Mathlib.Tactic.Linarith
@@ -30,7 +31,7 @@ import Mathlib.Tactic.FieldSimp
 import Mathlib.Algebra.Order.Field.Basic
 import Mathlib.Data.Rat.Floor
 namespace Vegeta.Props.C11
-open Vegeta.Go Vegeta.Model.Quantile Vegeta.Model.TDigestMerge
+open Vegeta.Go Vegeta.Model.Quantile Vegeta.Model.TDigestMerge Vegeta.Model.LatencySeq
 
 set_option linter.unusedSectionVars false
 set_option linter.unusedSimpArgs false
@@ -1456,5 +1457,1129 @@ example :
 (`sortSpec_mergeSort`), any limit function will do, e.g. the constant 2 -/
 example : ∃ (lim : Lim ℚ) (sortBy : List (Centroid ℚ) → List (Centroid ℚ)), SortSpec sortBy ∧ lim.init 7 = 2 :=
   ⟨⟨fun _ => 2, fun _ _ => 2⟩, _, sortSpec_mergeSort, rfl⟩
+
+
+/-! ## Call sequences (Model/LatencySeq.lean): Add / Close / Quantile / HDR report in any order -/
+
+/-- the samples as the estimator sees them: nanoseconds, converted with `float64(latency)` -/
+def asSamples (xs : List Int) : List K := xs.map (fun i : Int => (i : K))
+
+/-- what is assumed of the environment: the sort sorts, the conversion `time.Duration(float64)` is
+monotone and exact on integers, the ladder is a sorted table of fractions in [0,1] -/
+structure EnvOK (e : Env K) : Prop where
+  sort : SortSpec e.sortBy
+  truncMono : ∀ a b : K, a ≤ b → e.trunc a ≤ e.trunc b
+  truncInt : ∀ i : Int, e.trunc (i : K) = i
+  ladder : ladderOK e.ladder = true
+
+/-- what is assumed of a call sequence: latencies are non-negative and within the digest's sentinels
+(±MaxFloat64), quantile arguments lie in [0,1] -/
+def OpOK (e : Env K) : Op K → Prop
+  | .add l _ => 0 ≤ l ∧ e.cfg.lo ≤ (l : K) ∧ (l : K) ≤ e.cfg.hi
+  | .quantile q => 0 ≤ q ∧ q ≤ 1
+  | _ => True
+
+def OpsOK (e : Env K) (ops : List (Op K)) : Prop := ∀ op ∈ ops, OpOK e op
+
+/-- **The invariant of the Metrics state after the latencies `xs` were added** (in this order), whatever
+Close / Quantile / HDR-report calls were interleaved. -/
+structure Good (e : Env K) (xs : List Int) (m : MS K) : Prop where
+  req : m.requests = xs.length
+  estNone : m.est = none ↔ xs = []
+  inv : ∀ t, m.est = some t → DigestInv e.cfg.hi e.cfg.lo (asSamples xs) t ∧
+          t.maxProcessed = e.cfg.maxP ∧ t.maxUnprocessed = e.cfg.maxU
+  minmax : xs ≠ [] → (∀ x ∈ xs, m.min ≤ x ∧ x ≤ m.max) ∧ m.min ∈ xs ∧ m.max ∈ xs
+  maxInit : xs = [] → m.max = 0       -- `Max` starts at zero (and `Min` is set by the first Add)
+  nonneg : ∀ x ∈ xs, 0 ≤ x
+  sent : ∀ x ∈ xs, e.cfg.lo ≤ (x : K) ∧ (x : K) ≤ e.cfg.hi
+
+theorem aux_good_init (e : Env K) : Good e [] (MS.init : MS K) where
+  req := rfl
+  estNone := by simp [MS.init]
+  inv := by intro t h; simp [MS.init] at h
+  minmax := by intro h; exact absurd rfl h
+  maxInit := by intro _; rfl
+  nonneg := by simp
+  sent := by simp
+
+theorem aux_asSamples_append (xs : List Int) (l : Int) : (asSamples (xs ++ [l]) : List K) = asSamples xs ++ [(l : K)] := by
+  simp [asSamples]
+
+/-- `Metrics.Add` keeps the invariant, appending the latency to the samples seen -/
+theorem aux_good_add (e : Env K) (he : EnvOK e) (xs : List Int) (m : MS K) (hg : Good e xs m) (l ts : Int)
+    (hl : 0 ≤ l) (hs : e.cfg.lo ≤ (l : K) ∧ (l : K) ≤ e.cfg.hi) :
+    ∃ m', msAdd e m l ts = .ok m' ∧ Good e (xs ++ [l]) m' ∧ m'.p50 = m.p50 ∧ m'.p90 = m.p90 ∧ m'.p95 = m.p95 ∧ m'.p99 = m.p99 := by
+  -- the estimator before the call (a fresh one when nil) satisfies the digest invariant for `xs`
+  obtain ⟨est0, hest0, hinv0, hP0, hU0⟩ : ∃ est0 : TD K,
+      estOrNew e m.est = est0 ∧
+      DigestInv e.cfg.hi e.cfg.lo (asSamples xs) est0 ∧ est0.maxProcessed = e.cfg.maxP ∧ est0.maxUnprocessed = e.cfg.maxU := by
+    cases hm : m.est with
+    | none =>
+      have : xs = [] := hg.estNone.mp hm
+      subst this
+      exact ⟨_, rfl, by simpa [asSamples, estOrNew] using aux_inv_init e.cfg.maxP e.cfg.maxU e.cfg.hi e.cfg.lo, rfl, rfl⟩
+    | some t =>
+      obtain ⟨h1, h2, h3⟩ := hg.inv t hm
+      exact ⟨t, rfl, h1, h2, h3⟩
+  obtain ⟨t', hadd, hinv', hP', hU'⟩ := add_preserves_invariant e.lim e.sortBy he.sort e.cfg.hi e.cfg.lo (asSamples xs) est0 hinv0 (l : K)
+  unfold msAdd latAdd
+  simp only [hest0, aux_ops_ofInt, hadd]
+  refine ⟨_, rfl, ?_, rfl, rfl, rfl, rfl⟩
+  refine ⟨by simp [hg.req], by simp, ?_, ?_, by simp, ?_, ?_⟩
+  · intro t ht
+    simp only [Option.some.injEq] at ht
+    subst ht
+    rw [aux_asSamples_append]
+    exact ⟨hinv', by rw [hP', hP0], by rw [hU', hU0]⟩
+  · intro _
+    by_cases hx : xs = []
+    · subst hx
+      have hnone : m.est = none := hg.estNone.mpr rfl
+      have hmax0 : m.max = 0 := hg.maxInit rfl
+      simp only [hnone, Option.isNone_none, Bool.true_or, ↓reduceIte, List.nil_append, List.mem_singleton, forall_eq, hmax0]
+      -- Max starts at zero: `latency > l.Max` (the latency is non-negative)
+      by_cases h0 : l > 0
+      · simp [h0]
+      · have : l = 0 := by omega
+        subst this; simp
+    · have hsome : m.est.isNone = false := by
+        cases hm : m.est with
+        | none => exact absurd (hg.estNone.mp hm) hx
+        | some t => rfl
+      obtain ⟨hall, hmin, hmax⟩ := hg.minmax hx
+      simp only [hsome, Bool.false_or, decide_eq_true_eq]
+      refine ⟨?_, ?_, ?_⟩
+      · intro x hxm
+        simp only [List.mem_append, List.mem_singleton] at hxm
+        rcases hxm with h | h
+        · have := hall x h
+          constructor <;> split <;> omega
+        · subst h
+          constructor <;> split <;> omega
+      · split
+        · simp
+        · simp [hmin]
+      · split
+        · simp
+        · simp [hmax]
+  · intro x hx; simp only [List.mem_append, List.mem_singleton] at hx
+    rcases hx with h | h
+    · exact hg.nonneg x h
+    · rw [h]; exact hl
+  · intro x hx; simp only [List.mem_append, List.mem_singleton] at hx
+    rcases hx with h | h
+    · exact hg.sent x h
+    · rw [h]; exact hs
+
+theorem aux_asSamples_ne (xs : List Int) (h : xs ≠ []) : (asSamples xs : List K) ≠ [] := by
+  simpa [asSamples] using h
+
+/-- `Latencies.Quantile(q)` keeps the invariant, touches nothing but the estimator, and answers
+within `[Min, Max]` -/
+theorem aux_good_quantile (e : Env K) (he : EnvOK e) (xs : List Int) (m : MS K) (hg : Good e xs m) (q : K)
+    (h0 : 0 ≤ q) (h1 : q ≤ 1) :
+    ∃ m' d, lmQuantile e m q = .ok (m', d) ∧ Good e xs m' ∧ m' = { m with est := m'.est } ∧
+      (xs ≠ [] → m.min ≤ d ∧ d ≤ m.max) ∧
+      (∀ t, m.est = some t → ∃ t' r, process e.lim e.sortBy t = .ok t' ∧ m'.est = some t' ∧
+         quantile t'.digest q = .ok r ∧ d = e.trunc r ∧ Valid t'.digest ∧ t'.unprocessed = []) := by
+  unfold lmQuantile
+  cases hm : m.est with
+  | none =>
+    have hx : xs = [] := hg.estNone.mp hm
+    refine ⟨m, _, rfl, hg, ?_, fun h => absurd hx h, ?_⟩
+    · cases m; simp_all
+    · intro t ht; cases ht
+  | some t =>
+    have hx : xs ≠ [] := fun h => by have := hg.estNone.mpr h; rw [hm] at this; cases this
+    obtain ⟨hinv, hP, hU⟩ := hg.inv t hm
+    have hsent : ∀ x ∈ (asSamples xs : List K), e.cfg.lo ≤ x ∧ x ≤ e.cfg.hi := by
+      intro x hxm; simp only [asSamples, List.mem_map] at hxm; obtain ⟨i, hi, rfl⟩ := hxm; exact hg.sent i hi
+    obtain ⟨t', r, hq, hp, hr, hinv', hu, hv, hlo, hhi⟩ :=
+      aux_quantileTD e.lim e.sortBy he.sort e.cfg.hi e.cfg.lo (asSamples xs) (aux_asSamples_ne xs hx) hsent t hinv q h0 h1
+    obtain ⟨_, hp2, _, _, hP', hU', _⟩ := process_preserves_invariant e.lim e.sortBy he.sort e.cfg.hi e.cfg.lo (asSamples xs) t hinv
+    rw [hp] at hp2; cases hp2
+    simp only [hq]
+    obtain ⟨hall, hmin, hmax⟩ := hg.minmax hx
+    refine ⟨_, _, rfl, ?_, rfl, ?_, ?_⟩
+    · refine ⟨hg.req, by simp [hx], ?_, hg.minmax, hg.maxInit, hg.nonneg, hg.sent⟩
+      intro t2 ht2
+      simp only [Option.some.injEq] at ht2; subst ht2
+      exact ⟨hinv', by rw [hP', hP], by rw [hU', hU]⟩
+    · intro _
+      have hLB : LB ((m.min : Int) : K) (asSamples xs) := by
+        intro x hxm; simp only [asSamples, List.mem_map] at hxm; obtain ⟨i, hi, rfl⟩ := hxm
+        exact_mod_cast (hall i hi).1
+      have hUB : UB ((m.max : Int) : K) (asSamples xs) := by
+        intro x hxm; simp only [asSamples, List.mem_map] at hxm; obtain ⟨i, hi, rfl⟩ := hxm
+        exact_mod_cast (hall i hi).2
+      constructor
+      · rw [← he.truncInt m.min]; exact he.truncMono _ _ (hlo _ hLB)
+      · rw [← he.truncInt m.max]; exact he.truncMono _ _ (hhi _ hUB)
+    · intro t2 ht2
+      cases ht2
+      exact ⟨t', r, hp, rfl, hr, rfl, hv, hu⟩
+
+/-- the centroid count after this state's next `process()` stays within `maxProcessed` (then later
+`process()` calls with nothing new find nothing to do) -/
+def StableNext (e : Env K) (m : MS K) : Prop :=
+  ∀ t t1, m.est = some t → process e.lim e.sortBy t = .ok t1 → t1.processed.length ≤ t1.maxProcessed
+
+theorem aux_good_with_fields (e : Env K) (xs : List Int) (m : MS K) (hg : Good e xs m) (d : Int) (r : Bool) :
+    Good e xs { m with duration := d, rateNormalised := r } :=
+  ⟨hg.req, hg.estNone, hg.inv, hg.minmax, hg.maxInit, hg.nonneg, hg.sent⟩
+
+/-- `Metrics.Close` after any history: never panics, keeps the invariant, leaves Min/Max/Requests alone,
+puts every percentile within `[Min, Max]`, and — when the centroid count stays within `maxProcessed` —
+in the order `Min ≤ P50 ≤ P90 ≤ P95 ≤ P99 ≤ Max`. -/
+theorem aux_good_close (e : Env K) (he : EnvOK e) (xs : List Int) (m : MS K) (hg : Good e xs m) :
+    ∃ m', msClose e m = .ok m' ∧ Good e xs m' ∧ m'.min = m.min ∧ m'.max = m.max ∧ m'.requests = m.requests ∧
+      (xs = [] → m' = m) ∧
+      (xs ≠ [] → m.min ≤ m'.p50 ∧ m'.p50 ≤ m.max ∧ m.min ≤ m'.p90 ∧ m'.p90 ≤ m.max ∧
+                 m.min ≤ m'.p95 ∧ m'.p95 ≤ m.max ∧ m.min ≤ m'.p99 ∧ m'.p99 ≤ m.max) ∧
+      (xs ≠ [] → StableNext e m → m'.p50 ≤ m'.p90 ∧ m'.p90 ≤ m'.p95 ∧ m'.p95 ≤ m'.p99) := by
+  unfold msClose closeFour
+  by_cases hx : xs = []
+  · have : m.requests = 0 := by rw [hg.req, hx]; rfl
+    simp only [this, ↓reduceIte]
+    exact ⟨m, rfl, hg, rfl, rfl, this, fun _ => rfl, fun h => absurd hx h, fun h => absurd hx h⟩
+  · have hreq : m.requests ≠ 0 := by
+      rw [hg.req]; exact fun h => hx (List.length_eq_zero_iff.mp h)
+    simp only [hreq, ↓reduceIte]
+    have r50 := aux_lit_range (K := K) 50 100 (by omega) (by omega)
+    have r90 := aux_lit_range (K := K) 90 100 (by omega) (by omega)
+    have r95 := aux_lit_range (K := K) 95 100 (by omega) (by omega)
+    have r99 := aux_lit_range (K := K) 99 100 (by omega) (by omega)
+    have l1 := aux_lit_le (K := K) 50 100 90 100 (by omega) (by omega) (by omega)
+    have l2 := aux_lit_le (K := K) 90 100 95 100 (by omega) (by omega) (by omega)
+    have l3 := aux_lit_le (K := K) 95 100 99 100 (by omega) (by omega) (by omega)
+    have hg0 := aux_good_with_fields e xs m hg ((m.latest.getD 0) - (m.earliest.getD 0)) (decide ((m.latest.getD 0) - (m.earliest.getD 0) > 0))
+    obtain ⟨m1, a, e1, g1, f1, b1, s1⟩ := aux_good_quantile e he xs _ hg0 _ r50.1 r50.2
+    obtain ⟨m2, b, e2, g2, f2, b2, s2⟩ := aux_good_quantile e he xs m1 g1 _ r90.1 r90.2
+    obtain ⟨m3, c, e3, g3, f3, b3, s3⟩ := aux_good_quantile e he xs m2 g2 _ r95.1 r95.2
+    obtain ⟨m4, d, e4, g4, f4, b4, s4⟩ := aux_good_quantile e he xs m3 g3 _ r99.1 r99.2
+    simp only [e1, e2, e3, e4]
+    have hmin1 : m1.min = m.min := by rw [f1]
+    have hmax1 : m1.max = m.max := by rw [f1]
+    have hmin2 : m2.min = m.min := by rw [f2]; exact hmin1
+    have hmax2 : m2.max = m.max := by rw [f2]; exact hmax1
+    have hmin3 : m3.min = m.min := by rw [f3]; exact hmin2
+    have hmax3 : m3.max = m.max := by rw [f3]; exact hmax2
+    have hmin4 : m4.min = m.min := by rw [f4]; exact hmin3
+    have hmax4 : m4.max = m.max := by rw [f4]; exact hmax3
+    have hreq4 : m4.requests = m.requests := by rw [f4]; show m3.requests = _; rw [f3]; show m2.requests = _; rw [f2]; show m1.requests = _; rw [f1]
+    refine ⟨_, rfl, ⟨by simpa using g4.req, by simpa using g4.estNone, by simpa using g4.inv, by simpa using g4.minmax,
+        by simpa using g4.maxInit, g4.nonneg, g4.sent⟩, hmin4, hmax4, hreq4, fun h => absurd h hx, ?_, ?_⟩
+    · intro _
+      have B1 := b1 hx; have B2 := b2 hx; have B3 := b3 hx; have B4 := b4 hx
+      simp only at B1
+      rw [hmin1, hmax1] at B2; rw [hmin2, hmax2] at B3; rw [hmin3, hmax3] at B4
+      exact ⟨B1.1, B1.2, B2.1, B2.2, B3.1, B3.2, B4.1, B4.2⟩
+    · intro _ hst
+      -- the estimator exists; after the first process() the later ones are idle
+      obtain ⟨t, ht⟩ : ∃ t, m.est = some t := by
+        cases hm : m.est with
+        | none => exact absurd (hg.estNone.mp hm) hx
+        | some t => exact ⟨t, rfl⟩
+      obtain ⟨t1, ra, p1, em1, q1, da, v1, u1⟩ := s1 t ht
+      have hidle := aux_process_idle e.lim e.sortBy t1 u1 (hst t t1 ht p1)
+      obtain ⟨t2, rb, p2, em2, q2, db, _, _⟩ := s2 t1 em1
+      rw [hidle] at p2; cases p2
+      obtain ⟨t3, rc, p3, em3, q3, dc, _, _⟩ := s3 t1 em2
+      rw [hidle] at p3; cases p3
+      obtain ⟨t4, rd, p4, em4, q4, dd, _, _⟩ := s4 t1 em3
+      rw [hidle] at p4; cases p4
+      have mono : ∀ (qa qb x y : K), 0 ≤ qa → qa ≤ qb → qb ≤ 1 → quantile t1.digest qa = .ok x → quantile t1.digest qb = .ok y → x ≤ y := by
+        intro qa qb x y h0 h12 h1 hx' hy'
+        obtain ⟨x', y', hx'', hy'', hxy⟩ := quantile_monotone_in_q t1.digest v1 qa qb h0 h12 h1
+        rw [hx'] at hx''; cases hx''
+        rw [hy'] at hy''; cases hy''
+        exact hxy
+      simp only
+      rw [da, db, dc, dd]
+      exact ⟨he.truncMono _ _ (mono _ _ ra rb r50.1 l1 r90.2 q1 q2), he.truncMono _ _ (mono _ _ rb rc r90.1 l2 r95.2 q2 q3),
+        he.truncMono _ _ (mono _ _ rc rd r95.1 l3 r99.2 q3 q4)⟩
+
+/-- the HDR rows after any history, unconditionally: one row per ladder entry, every value within
+`[Min, Max]`, nothing but the estimator touched, invariant kept -/
+theorem aux_good_hdrRows (e : Env K) (he : EnvOK e) (xs : List Int) (qs : List K) (hq : ∀ q ∈ qs, 0 ≤ q ∧ q ≤ 1) :
+    ∀ (m : MS K), Good e xs m →
+    ∃ m' rs, hdrRowsSeq e m qs = .ok (m', rs) ∧ Good e xs m' ∧ m' = { m with est := m'.est } ∧ rs.length = qs.length ∧
+      (xs ≠ [] → ∀ r ∈ rs, m.min ≤ r.dur ∧ r.dur ≤ m.max) := by
+  induction qs with
+  | nil => intro m hg; exact ⟨m, [], rfl, hg, by cases m; rfl, rfl, by simp⟩
+  | cons q qs ih =>
+    intro m hg
+    obtain ⟨hq0, hq1⟩ := hq q (by simp)
+    obtain ⟨m1, d, e1, g1, f1, b1, _⟩ := aux_good_quantile e he xs m hg q hq0 hq1
+    obtain ⟨m2, rs, e2, g2, f2, l2, b2⟩ := ih (fun x hx => hq x (List.mem_cons_of_mem _ hx)) m1 g1
+    have hrun : hdrRowsSeq e m (q :: qs) = .ok (m2,
+        { value := milliseconds d, q := q, count := e.trunc (QOps.add (QOps.mul q (QOps.ofNat m.requests)) (lit 5 10)),
+          oneBy := oneByQuantile q, dur := d } :: rs) := by
+      simp only [hdrRowsSeq, e1, e2]
+    refine ⟨m2, _, hrun, g2, ?_, by simp [l2], ?_⟩
+    · rw [f2, f1]
+    · intro hx r hr
+      simp only [List.mem_cons] at hr
+      rcases hr with h | h
+      · subst h; exact b1 hx
+      · have := b2 hx r h
+        have hmin1 : m1.min = m.min := by rw [f1]
+        have hmax1 : m1.max = m.max := by rw [f1]
+        rw [hmin1, hmax1] at this; exact this
+
+/-- settled: nothing pending and at most `maxProcessed` centroids — `process()` finds nothing to do -/
+def Settled (t : TD K) : Prop := t.unprocessed = [] ∧ t.processed.length ≤ t.maxProcessed
+
+theorem aux_lmQuantile_settled (e : Env K) (m : MS K) (t : TD K) (hm : m.est = some t) (hs : Settled t) (q : K) :
+    lmQuantile e m q = (match quantile t.digest q with
+      | .ok r => .ok (m, e.trunc r)
+      | .error c => .error c
+      | .panic => .panic) := by
+  unfold lmQuantile quantileTD
+  rw [hm]
+  simp only [aux_process_idle e.lim e.sortBy t hs.1 hs.2]
+  have : ({ m with est := some t } : MS K) = m := by cases m; simp_all
+  cases quantile t.digest q <;> simp [this]
+
+theorem aux_hdrRowsSeq_settled (e : Env K) (m : MS K) (t : TD K) (hm : m.est = some t) (hs : Settled t) (qs : List K) :
+    hdrRowsSeq e m qs = (match hdrRowsFrom e.trunc (cumulative t.processed) t.digest m.requests qs with
+      | .ok rs => .ok (m, rs)
+      | .error c => .error c
+      | .panic => .panic) := by
+  induction qs with
+  | nil => simp [hdrRowsSeq, hdrRowsFrom]
+  | cons q qs ih =>
+    simp only [hdrRowsSeq, hdrRowsFrom, hdrRow, latQuantileCum, aux_lmQuantile_settled e m t hm hs q]
+    have hq : quantile t.digest q = quantileCum (cumulative t.processed) t.digest q := rfl
+    rw [hq]
+    cases quantileCum (cumulative t.processed) t.digest q with
+    | ok r =>
+      simp only
+      rw [ih]
+      cases hdrRowsFrom e.trunc (cumulative t.processed) t.digest m.requests qs <;> rfl
+    | error c => rfl
+    | panic => rfl
+
+/-- **The HDR reporter is a pure function of the Metrics at the time of the call**: on a settled
+estimator the report is `Quantile.hdrRows` of the current digest and request count, and the state is
+left exactly as it was — so a second report shows the same rows (no state carried between reports). -/
+theorem hdr_report_pure (e : Env K) (m : MS K) (t : TD K) (hm : m.est = some t) (hs : Settled t) :
+    hdrReport e m = (match hdrRows e.trunc t.digest m.requests e.ladder with
+      | .ok rs => .ok (m, rs)
+      | .error c => .error c
+      | .panic => .panic) := by
+  unfold hdrReport hdrRows
+  exact aux_hdrRowsSeq_settled e m t hm hs _
+
+/-- two reports in a row show the same rows (and two Metrics with the same estimator and request count
+show the same rows, whatever their other fields hold) -/
+theorem hdr_report_twice (e : Env K) (m : MS K) (t : TD K) (hm : m.est = some t) (hs : Settled t)
+    (m1 : MS K) (rs : List (HdrRow K)) (h : hdrReport e m = .ok (m1, rs)) :
+    m1 = m ∧ hdrReport e m1 = .ok (m1, rs) := by
+  rw [hdr_report_pure e m t hm hs] at h
+  cases hr : hdrRows e.trunc t.digest m.requests e.ladder with
+  | ok rs' =>
+    rw [hr] at h; simp only [Outcome.ok.injEq, Prod.mk.injEq] at h
+    obtain ⟨h1, h2⟩ := h
+    subst h1; subst h2
+    refine ⟨rfl, ?_⟩
+    rw [hdr_report_pure e m t hm hs, hr]
+  | error c => rw [hr] at h; cases h
+  | panic => rw [hr] at h; cases h
+
+/-- the HDR report after any history, when the centroid count stays within `maxProcessed`: it is the pure
+report of the digest as compacted by the first `Quantile` call, hence non-decreasing in percentile,
+latency and printed value -/
+theorem aux_good_hdr_stable (e : Env K) (he : EnvOK e) (xs : List Int) (m : MS K) (hg : Good e xs m) (hx : xs ≠ [])
+    (hst : StableNext e m) (hl : e.ladder ≠ []) :
+    ∃ m1 t t1 rs, hdrReport e m = .ok (m1, rs) ∧ m.est = some t ∧ process e.lim e.sortBy t = .ok t1 ∧
+      m1 = { m with est := some t1 } ∧ Good e xs m1 ∧ Settled t1 ∧
+      hdrRows e.trunc t1.digest m.requests e.ladder = .ok rs ∧ rs.length = e.ladder.length ∧
+      Chain (fun a b : HdrRow K => a.q ≤ b.q ∧ a.dur ≤ b.dur ∧ a.value ≤ b.value) rs := by
+  obtain ⟨t, ht⟩ : ∃ t, m.est = some t := by
+    cases hm : m.est with
+    | none => exact absurd (hg.estNone.mp hm) hx
+    | some t => exact ⟨t, rfl⟩
+  obtain ⟨hlad1, _⟩ := aux_ladder (K := K) e.ladder he.ladder
+  cases hlad : e.ladder with
+  | nil => exact absurd hlad hl
+  | cons p rest =>
+    obtain ⟨n0, d0⟩ := p
+    have hq0 : (0:K) ≤ lit n0 d0 ∧ (lit n0 d0 : K) ≤ 1 := hlad1 _ (by rw [hlad]; simp)
+    obtain ⟨m1, d, e1, g1, f1, _, s1⟩ := aux_good_quantile e he xs m hg (lit n0 d0) hq0.1 hq0.2
+    obtain ⟨t1, r, p1, em1, q1, dd, v1, u1⟩ := s1 t ht
+    have hset : Settled t1 := ⟨u1, hst t t1 ht p1⟩
+    have hm1 : m1 = { m with est := some t1 } := by rw [f1, em1]
+    have hreq1 : m1.requests = m.requests := by rw [f1]
+    obtain ⟨rs, hrows, hlen, hchain⟩ := hdr_rows_nondecreasing t1.digest v1 e.trunc he.truncMono m.requests e.ladder he.ladder
+    refine ⟨m1, t, t1, rs, ?_, ht, p1, hm1, g1, hset, by rw [← hlad]; exact hrows, by rw [← hlad]; exact hlen, hchain⟩
+    -- unfold both reports along the ladder `(n0, d0) :: rest`
+    unfold hdrRows at hrows
+    rw [hlad] at hrows
+    simp only [List.map_cons, hdrRowsFrom, hdrRow, latQuantileCum] at hrows
+    have hq : quantileCum (cumulative t1.digest.processed) t1.digest (lit n0 d0) = .ok r := q1
+    rw [hq] at hrows
+    simp only at hrows
+    unfold hdrReport
+    rw [hlad]
+    simp only [List.map_cons, hdrRowsSeq, e1]
+    rw [aux_hdrRowsSeq_settled e m1 t1 em1 hset, hreq1]
+    have hcum : cumulative t1.processed = cumulative t1.digest.processed := rfl
+    rw [hcum]
+    cases hrest : hdrRowsFrom e.trunc (cumulative t1.digest.processed) t1.digest m.requests
+        (List.map (fun x => match x with | (n, dn) => (lit n dn : K)) rest) with
+    | ok rs' =>
+      rw [hrest] at hrows
+      simp only [Outcome.ok.injEq] at hrows
+      simp only [dd]
+      rw [← hrows]
+    | error c => rw [hrest] at hrows; cases hrows
+    | panic => rw [hrest] at hrows; cases hrows
+
+/-! ### every call sequence -/
+
+/-- **Any call sequence runs to completion and keeps the invariant**: after any interleaving of Add,
+Close, Quantile and HDR-report calls the estimator holds exactly the latencies added (each once, in
+nanoseconds, weight 1: total weight = number of Adds, every centroid mean and `min`/`max` within their
+range, sorted means, positive weights), `Requests` counts them, and `Min`/`Max` are their exact minimum
+and maximum. -/
+theorem aux_runFrom (e : Env K) (he : EnvOK e) (ops : List (Op K)) : ∀ (xs : List Int) (m : MS K), Good e xs m → OpsOK e ops →
+    ∃ m' os, runFrom e m ops = .ok (m', os) ∧ Good e (xs ++ added ops) m' ∧ os.length = ops.length := by
+  induction ops with
+  | nil => intro xs m hg _; exact ⟨m, [], rfl, by simpa [added] using hg, rfl⟩
+  | cons op ops ih =>
+    intro xs m hg hok
+    have hop : OpOK e op := hok op (by simp)
+    have hrest : OpsOK e ops := fun o ho => hok o (List.mem_cons_of_mem _ ho)
+    cases op with
+    | add l ts =>
+      obtain ⟨h1, h2⟩ := hop
+      obtain ⟨m1, e1, g1, _⟩ := aux_good_add e he xs m hg l ts h1 h2
+      obtain ⟨m2, os, e2, g2, l2⟩ := ih (xs ++ [l]) m1 g1 hrest
+      have hr : runFrom e m (Op.add l ts :: ops) = .ok (m2, Obs.none :: os) := by simp only [runFrom, step, e1, e2]
+      exact ⟨m2, _, hr, by simpa [added] using g2, by simp [l2]⟩
+    | close =>
+      obtain ⟨m1, e1, g1, _⟩ := aux_good_close e he xs m hg
+      obtain ⟨m2, os, e2, g2, l2⟩ := ih xs m1 g1 hrest
+      have hr : runFrom e m (Op.close :: ops) = .ok (m2, Obs.closed m1.min m1.p50 m1.p90 m1.p95 m1.p99 m1.max :: os) := by
+        simp only [runFrom, step, e1, e2]
+      exact ⟨m2, _, hr, by simpa [added] using g2, by simp [l2]⟩
+    | quantile q =>
+      obtain ⟨m1, d, e1, g1, _⟩ := aux_good_quantile e he xs m hg q hop.1 hop.2
+      obtain ⟨m2, os, e2, g2, l2⟩ := ih xs m1 g1 hrest
+      have hr : runFrom e m (Op.quantile q :: ops) = .ok (m2, Obs.value d :: os) := by simp only [runFrom, step, e1, e2]
+      exact ⟨m2, _, hr, by simpa [added] using g2, by simp [l2]⟩
+    | hdr =>
+      obtain ⟨hl1, _⟩ := aux_ladder (K := K) e.ladder he.ladder
+      obtain ⟨m1, rs, e1, g1, _⟩ := aux_good_hdrRows e he xs _ hl1 m hg
+      have e1' : hdrReport e m = .ok (m1, rs) := by
+        unfold hdrReport
+        have : (List.map (fun x => match x with | (n, dn) => (lit n dn : K)) e.ladder) = List.map (fun (p : Nat × Nat) => (lit p.1 p.2 : K)) e.ladder := by
+          apply List.map_congr_left; intro p _; rfl
+        rw [this]; exact e1
+      obtain ⟨m2, os, e2, g2, l2⟩ := ih xs m1 g1 hrest
+      have hr : runFrom e m (Op.hdr :: ops) = .ok (m2, Obs.rows rs :: os) := by simp only [runFrom, step, e1', e2]
+      exact ⟨m2, _, hr, by simpa [added] using g2, by simp [l2]⟩
+
+/-- **(invariant over call sequences)** Every call sequence — any interleaving of `Metrics.Add`, `Close`,
+`Latencies.Quantile` and HDR reports, with non-negative latencies and quantile arguments in [0,1] — runs
+to completion (no panic), reports once per call, and ends in a state where: `Requests` = number of Adds;
+the estimator exists iff something was added and holds exactly the added latencies — each ONCE, in
+NANOSECONDS (`float64(latency)`), weight 1 (total weight = number of Adds; every centroid mean and the
+digest's `min`/`max` within the range of the added values; sorted means; positive weights); `Min`/`Max`
+are the exact minimum and maximum of the added latencies. -/
+theorem seq_invariant (e : Env K) (he : EnvOK e) (ops : List (Op K)) (hok : OpsOK e ops) :
+    ∃ m os, run e ops = .ok (m, os) ∧ Good e (added ops) m ∧ os.length = ops.length := by
+  obtain ⟨m, os, h1, h2, h3⟩ := aux_runFrom e he ops [] MS.init (aux_good_init e) hok
+  exact ⟨m, os, h1, by simpa using h2, h3⟩
+
+/-- **(ordering and all-equal clause, for every history including intermediate Closes)** After ANY call
+sequence, a `Close`: never panics; leaves `Min`/`Max` the exact extremes of the latencies added so far;
+puts each of P50, P90, P95, P99 within `[Min, Max]` (unconditionally) — so when all latencies equal `v`
+all four equal `v`; and, when the centroid count after the pending compaction stays within
+`maxProcessed`, orders them `Min ≤ P50 ≤ P90 ≤ P95 ≤ P99 ≤ Max`.  (Take `ops` to be any prefix of a
+longer history: the statement covers every intermediate Close.) -/
+theorem seq_close_after_any_history (e : Env K) (he : EnvOK e) (ops : List (Op K)) (hok : OpsOK e ops) (hne : added ops ≠ []) :
+    ∃ m os m', run e ops = .ok (m, os) ∧ msClose e m = .ok m' ∧
+      (∀ x ∈ added ops, m'.min ≤ x ∧ x ≤ m'.max) ∧ m'.min ∈ added ops ∧ m'.max ∈ added ops ∧
+      m'.min ≤ m'.p50 ∧ m'.p50 ≤ m'.max ∧ m'.min ≤ m'.p90 ∧ m'.p90 ≤ m'.max ∧
+      m'.min ≤ m'.p95 ∧ m'.p95 ≤ m'.max ∧ m'.min ≤ m'.p99 ∧ m'.p99 ≤ m'.max ∧
+      (StableNext e m → m'.p50 ≤ m'.p90 ∧ m'.p90 ≤ m'.p95 ∧ m'.p95 ≤ m'.p99) ∧
+      (∀ v, (∀ x ∈ added ops, x = v) → m'.min = v ∧ m'.p50 = v ∧ m'.p90 = v ∧ m'.p95 = v ∧ m'.p99 = v ∧ m'.max = v) := by
+  obtain ⟨m, os, hrun, hg, _⟩ := seq_invariant e he ops hok
+  obtain ⟨m', hc, hg', hmin, hmax, _, _, hrange, hord⟩ := aux_good_close e he (added ops) m hg
+  obtain ⟨hall, hmn, hmx⟩ := hg.minmax hne
+  obtain ⟨a1, a2, b1, b2, c1, c2, d1, d2⟩ := hrange hne
+  refine ⟨m, os, m', hrun, hc, by rw [hmin, hmax]; exact hall, by rw [hmin]; exact hmn, by rw [hmax]; exact hmx,
+    by rw [hmin]; exact a1, by rw [hmax]; exact a2, by rw [hmin]; exact b1, by rw [hmax]; exact b2,
+    by rw [hmin]; exact c1, by rw [hmax]; exact c2, by rw [hmin]; exact d1, by rw [hmax]; exact d2, hord hne, ?_⟩
+  intro v hv
+  have e1 : m.min = v := hv _ hmn
+  have e2 : m.max = v := hv _ hmx
+  rw [hmin, hmax]
+  refine ⟨e1, ?_, ?_, ?_, ?_, e2⟩ <;> omega
+
+/-- **(HDR report after any history)** After ANY call sequence the HDR report: never panics; has one row
+per ladder entry; every row's latency lies within `[Min, Max]` (unconditionally); touches nothing but
+the estimator; and, when the centroid count stays within `maxProcessed`, is exactly the pure report
+`Quantile.hdrRows` of the compacted digest, hence non-decreasing in percentile, latency and `Value(ms)`. -/
+theorem seq_hdr_after_any_history (e : Env K) (he : EnvOK e) (ops : List (Op K)) (hok : OpsOK e ops) (hne : added ops ≠ []) :
+    ∃ m os m1 rs, run e ops = .ok (m, os) ∧ hdrReport e m = .ok (m1, rs) ∧ rs.length = e.ladder.length ∧
+      m1 = { m with est := m1.est } ∧ (∀ r ∈ rs, m.min ≤ r.dur ∧ r.dur ≤ m.max) ∧
+      (StableNext e m → e.ladder ≠ [] →
+        Chain (fun a b : HdrRow K => a.q ≤ b.q ∧ a.dur ≤ b.dur ∧ a.value ≤ b.value) rs ∧
+        ∃ t1, m1.est = some t1 ∧ Settled t1 ∧ hdrRows e.trunc t1.digest m.requests e.ladder = .ok rs) := by
+  obtain ⟨m, os, hrun, hg, _⟩ := seq_invariant e he ops hok
+  obtain ⟨hl1, _⟩ := aux_ladder (K := K) e.ladder he.ladder
+  obtain ⟨m1, rs, e1, g1, f1, len1, b1⟩ := aux_good_hdrRows e he (added ops) _ hl1 m hg
+  have e1' : hdrReport e m = .ok (m1, rs) := by
+    unfold hdrReport
+    have : (List.map (fun x => match x with | (n, dn) => (lit n dn : K)) e.ladder) = List.map (fun (p : Nat × Nat) => (lit p.1 p.2 : K)) e.ladder := by
+      apply List.map_congr_left; intro p _; rfl
+    rw [this]; exact e1
+  refine ⟨m, os, m1, rs, hrun, e1', by simpa using len1, f1, b1 hne, ?_⟩
+  intro hst hl
+  obtain ⟨m1', t, t1, rs', h1, _, _, hm1, _, hset, hrows, _, hchain⟩ := aux_good_hdr_stable e he (added ops) m hg hne hst hl
+  rw [e1'] at h1
+  simp only [Outcome.ok.injEq, Prod.mk.injEq] at h1
+  obtain ⟨ha, hb⟩ := h1
+  subst ha; subst hb
+  exact ⟨hchain, t1, by rw [hm1], hset, hrows⟩
+
+/-- **(Close computes the four percentiles whatever the duration is)** With at least one request,
+`Metrics.Close` assigns P50, P90, P95, P99 exactly the four `Quantile` answers of the estimator
+(`TDigestMerge.closeTD`, each call with its leading `process()`), for EVERY value of `Earliest`/`Latest`:
+the timestamps decide only `Duration` and whether Rate/Throughput are normalised. -/
+theorem close_percentiles_whatever_the_duration {F : Type} [QOps F] (e : Env F) (m : MS F) (t : TD F)
+    (hreq : m.requests ≠ 0) (hm : m.est = some t) :
+    msClose e m = (match closeTD e.trunc e.lim e.sortBy t with
+      | .ok (t', p) => .ok { m with duration := (m.latest.getD 0) - (m.earliest.getD 0),
+                                    rateNormalised := decide ((m.latest.getD 0) - (m.earliest.getD 0) > 0),
+                                    est := some t', p50 := p.p50, p90 := p.p90, p95 := p.p95, p99 := p.p99 }
+      | .error _ => .panic
+      | .panic => .panic) := by
+  unfold msClose closeFour closeTD
+  simp only [hreq, ↓reduceIte]
+  unfold lmQuantile latQuantileTD
+  simp only [hm]
+  cases h1 : quantileTD e.lim e.sortBy t (lit 50 100) with
+  | ok x1 =>
+    obtain ⟨t1, r1⟩ := x1
+    simp only
+    cases h2 : quantileTD e.lim e.sortBy t1 (lit 90 100) with
+    | ok x2 =>
+      obtain ⟨t2, r2⟩ := x2
+      simp only
+      cases h3 : quantileTD e.lim e.sortBy t2 (lit 95 100) with
+      | ok x3 =>
+        obtain ⟨t3, r3⟩ := x3
+        simp only
+        cases h4 : quantileTD e.lim e.sortBy t3 (lit 99 100) with
+        | ok x4 => obtain ⟨t4, r4⟩ := x4; rfl
+        | error c => rfl
+        | panic => rfl
+      | error c => rfl
+      | panic => rfl
+    | error c => rfl
+    | panic => rfl
+  | error c => rfl
+  | panic => rfl
+
+/-- … in particular two Metrics that differ only in their timestamps get the same percentiles. -/
+theorem close_ignores_timestamps {F : Type} [QOps F] (e : Env F) (m : MS F) (a b : Option Int) (m1 m2 : MS F)
+    (h1 : msClose e m = .ok m1) (h2 : msClose e { m with earliest := a, latest := b } = .ok m2) :
+    m2.p50 = m1.p50 ∧ m2.p90 = m1.p90 ∧ m2.p95 = m1.p95 ∧ m2.p99 = m1.p99 ∧ m2.est = m1.est ∧
+    m2.min = m1.min ∧ m2.max = m1.max := by
+  by_cases hreq : m.requests = 0
+  · unfold msClose at h1 h2
+    simp only [hreq, ↓reduceIte, Outcome.ok.injEq] at h1 h2
+    subst h1; subst h2
+    exact ⟨rfl, rfl, rfl, rfl, rfl, rfl, rfl⟩
+  · cases hm : m.est with
+    | none =>
+      unfold msClose closeFour lmQuantile at h1 h2
+      simp only [hreq, ↓reduceIte, hm, Outcome.ok.injEq] at h1 h2
+      subst h1; subst h2
+      exact ⟨rfl, rfl, rfl, rfl, rfl, rfl, rfl⟩
+    | some t =>
+      rw [close_percentiles_whatever_the_duration e m t hreq hm] at h1
+      have h2' := close_percentiles_whatever_the_duration e { m with earliest := a, latest := b } t hreq hm
+      rw [h2'] at h2
+      cases hc : closeTD e.trunc e.lim e.sortBy t with
+      | ok x =>
+        obtain ⟨t', p⟩ := x
+        rw [hc] at h1 h2
+        simp only [Outcome.ok.injEq] at h1 h2
+        subst h1; subst h2
+        exact ⟨rfl, rfl, rfl, rfl, rfl, rfl, rfl⟩
+      | error c => rw [hc] at h1; cases h1
+      | panic => rw [hc] at h1; cases h1
+
+/-! ### the estimator sees every sample exactly once -/
+
+section trace
+variable {F : Type} [QOps F]
+
+/-- what reaches the estimator -/
+inductive EstOp (F : Type) where
+  | add (x : F)      -- `TDigest.Add(x, 1)`
+  | process          -- the `process()` a `Quantile` call starts with
+
+/-- the estimator-level trace of a call sequence: each `Metrics.Add` contributes ONE `Add(float64(latency), 1)`
+— the latency in nanoseconds — in arrival order; each `Latencies.Quantile` one `process()`; `Close` four;
+an HDR report one per ladder entry; before the first Add (no estimator yet) queries contribute nothing. -/
+def estTrace (ladderLen : Nat) : Bool → List (Op F) → List (EstOp F)
+  | _, [] => []
+  | has, op :: ops =>
+    match op with
+    | .add l _ => EstOp.add (QOps.ofInt l) :: estTrace ladderLen true ops
+    | .close => (if has then List.replicate 4 EstOp.process else []) ++ estTrace ladderLen has ops
+    | .quantile _ => (if has then [EstOp.process] else []) ++ estTrace ladderLen has ops
+    | .hdr => (if has then List.replicate ladderLen EstOp.process else []) ++ estTrace ladderLen has ops
+
+def runEst (e : Env F) : Option (TD F) → List (EstOp F) → Outcome (Option (TD F))
+  | o, [] => .ok o
+  | o, .add x :: r => match Vegeta.Model.TDigestMerge.add e.lim e.sortBy (estOrNew e o) x (QOps.ofNat 1) with
+    | .ok t => runEst e (some t) r
+    | .error c => .error c
+    | .panic => .panic
+  | none, .process :: r => runEst e none r
+  | some t, .process :: r => match process e.lim e.sortBy t with
+    | .ok t' => runEst e (some t') r
+    | .error c => .error c
+    | .panic => .panic
+
+theorem aux_runEst_append (e : Env F) (a b : List (EstOp F)) : ∀ (o o1 : Option (TD F)), runEst e o a = .ok o1 →
+    runEst e o (a ++ b) = runEst e o1 b := by
+  induction a with
+  | nil => intro o o1 h; simp only [runEst, Outcome.ok.injEq] at h; subst h; rfl
+  | cons x a ih =>
+    intro o o1 h
+    cases x with
+    | add v =>
+      simp only [List.cons_append, runEst] at h ⊢
+      cases hadd : Vegeta.Model.TDigestMerge.add e.lim e.sortBy (estOrNew e o) v (QOps.ofNat 1) with
+      | ok t => rw [hadd] at h; simp only at h ⊢; exact ih _ _ h
+      | error c => rw [hadd] at h; cases h
+      | panic => rw [hadd] at h; cases h
+    | process =>
+      cases o with
+      | none => simp only [List.cons_append, runEst] at h ⊢; exact ih _ _ h
+      | some t =>
+        simp only [List.cons_append, runEst] at h ⊢
+        cases hp : process e.lim e.sortBy t with
+        | ok t' => rw [hp] at h; simp only at h ⊢; exact ih _ _ h
+        | error c => rw [hp] at h; cases h
+        | panic => rw [hp] at h; cases h
+
+theorem aux_trace_quantile (e : Env F) (m m1 : MS F) (q : F) (d : Int) (h : lmQuantile e m q = .ok (m1, d)) :
+    runEst e m.est (if m.est.isSome then [EstOp.process] else []) = .ok m1.est ∧ m1.requests = m.requests ∧
+    m1.est.isSome = m.est.isSome := by
+  unfold lmQuantile at h
+  cases hm : m.est with
+  | none =>
+    rw [hm] at h
+    simp only [Outcome.ok.injEq, Prod.mk.injEq] at h
+    obtain ⟨h1, _⟩ := h
+    subst h1
+    simp [runEst, hm]
+  | some t =>
+    rw [hm] at h
+    simp only at h
+    unfold quantileTD at h
+    cases hp : process e.lim e.sortBy t with
+    | ok t' =>
+      rw [hp] at h
+      simp only at h
+      cases hq : quantile t'.digest q with
+      | ok r =>
+        rw [hq] at h
+        simp only [Outcome.ok.injEq, Prod.mk.injEq] at h
+        obtain ⟨h1, _⟩ := h
+        subst h1
+        simp [runEst, hp]
+      | error c => rw [hq] at h; cases h
+      | panic => rw [hq] at h; cases h
+    | error c => rw [hp] at h; cases h
+    | panic => rw [hp] at h; cases h
+
+theorem aux_trace_rows (e : Env F) (qs : List F) : ∀ (m m1 : MS F) (rs : List (HdrRow F)), hdrRowsSeq e m qs = .ok (m1, rs) →
+    runEst e m.est (if m.est.isSome then List.replicate qs.length EstOp.process else []) = .ok m1.est ∧
+    m1.requests = m.requests ∧ m1.est.isSome = m.est.isSome := by
+  induction qs with
+  | nil =>
+    intro m m1 rs h
+    simp only [hdrRowsSeq, Outcome.ok.injEq, Prod.mk.injEq] at h
+    obtain ⟨h1, _⟩ := h; subst h1
+    by_cases hs : m.est.isSome <;> simp [hs, runEst]
+  | cons q qs ih =>
+    intro m m1 rs h
+    simp only [hdrRowsSeq] at h
+    cases hq : lmQuantile e m q with
+    | ok x =>
+      obtain ⟨m2, d⟩ := x
+      rw [hq] at h
+      simp only at h
+      cases hr : hdrRowsSeq e m2 qs with
+      | ok y =>
+        obtain ⟨m3, rs'⟩ := y
+        rw [hr] at h
+        simp only [Outcome.ok.injEq, Prod.mk.injEq] at h
+        obtain ⟨h1, _⟩ := h; subst h1
+        obtain ⟨a1, a2, a3⟩ := aux_trace_quantile e m m2 q d hq
+        obtain ⟨b1, b2, b3⟩ := ih m2 m3 rs' hr
+        refine ⟨?_, by rw [b2, a2], by rw [b3, a3]⟩
+        by_cases hs : m.est.isSome = true
+        · have hs2 : m2.est.isSome = true := by rw [a3]; exact hs
+          simp only [hs, hs2, ↓reduceIte, List.length_cons, List.replicate_succ] at a1 b1 ⊢
+          have := aux_runEst_append e [EstOp.process] (List.replicate qs.length EstOp.process) m.est m2.est a1
+          simp only [List.singleton_append] at this
+          rw [this]; exact b1
+        · have hs' : m.est.isSome = false := by simpa using hs
+          have hs2 : m2.est.isSome = false := by rw [a3]; exact hs'
+          simp only [hs', hs2, Bool.false_eq_true, ↓reduceIte, runEst, Outcome.ok.injEq] at a1 b1 ⊢
+          rw [a1, b1]
+      | error c => rw [hr] at h; cases h
+      | panic => rw [hr] at h; cases h
+    | error c => rw [hq] at h; cases h
+    | panic => rw [hq] at h; cases h
+
+end trace
+
+section trace2
+variable {F : Type} [QOps F]
+
+theorem aux_trace_add (e : Env F) (m m1 : MS F) (l ts : Int) (h : msAdd e m l ts = .ok m1) :
+    runEst e m.est [EstOp.add (QOps.ofInt l)] = .ok m1.est ∧ m1.requests = m.requests + 1 ∧ m1.est.isSome = true := by
+  unfold msAdd latAdd at h
+  simp only at h
+  cases ha : Vegeta.Model.TDigestMerge.add e.lim e.sortBy (estOrNew e m.est) (QOps.ofInt l) (QOps.ofNat 1) with
+  | ok t =>
+    rw [ha] at h
+    simp only [Outcome.ok.injEq] at h
+    subst h
+    simp [runEst, ha]
+  | error c => rw [ha] at h; cases h
+  | panic => rw [ha] at h; cases h
+
+theorem aux_trace_closeQuantiles (e : Env F) (m0 m1 : MS F) (hs : m0.est.isSome = true) (h : closeFour e m0 = .ok m1) :
+    runEst e m0.est (List.replicate 4 EstOp.process) = .ok m1.est ∧ m1.requests = m0.requests ∧ m1.est.isSome = true := by
+  unfold closeFour at h
+  cases h1 : lmQuantile e m0 (lit 50 100) with
+  | ok x1 =>
+    obtain ⟨m1', a⟩ := x1
+    rw [h1] at h; simp only at h
+    cases h2 : lmQuantile e m1' (lit 90 100) with
+    | ok x2 =>
+      obtain ⟨m2', b⟩ := x2
+      rw [h2] at h; simp only at h
+      cases h3 : lmQuantile e m2' (lit 95 100) with
+      | ok x3 =>
+        obtain ⟨m3', c⟩ := x3
+        rw [h3] at h; simp only at h
+        cases h4 : lmQuantile e m3' (lit 99 100) with
+        | ok x4 =>
+          obtain ⟨m4', d⟩ := x4
+          rw [h4] at h; simp only [Outcome.ok.injEq] at h
+          subst h
+          obtain ⟨a1, a2, a3⟩ := aux_trace_quantile e m0 m1' _ a h1
+          obtain ⟨b1, b2, b3⟩ := aux_trace_quantile e m1' m2' _ b h2
+          obtain ⟨c1, c2, c3⟩ := aux_trace_quantile e m2' m3' _ c h3
+          obtain ⟨d1, d2, d3⟩ := aux_trace_quantile e m3' m4' _ d h4
+          have s1 : m1'.est.isSome = true := by rw [a3]; exact hs
+          have s2 : m2'.est.isSome = true := by rw [b3]; exact s1
+          have s3 : m3'.est.isSome = true := by rw [c3]; exact s2
+          simp only [hs, s1, s2, s3, ↓reduceIte] at a1 b1 c1 d1
+          refine ⟨?_, by simp only; rw [d2, c2, b2, a2], by simp only; rw [d3, s3]⟩
+          have e4 : List.replicate 4 (EstOp.process : EstOp F) = [EstOp.process] ++ ([EstOp.process] ++ ([EstOp.process] ++ [EstOp.process])) := rfl
+          rw [e4, aux_runEst_append e _ _ _ _ a1, aux_runEst_append e _ _ _ _ b1, aux_runEst_append e _ _ _ _ c1]
+          exact d1
+        | error c => rw [h4] at h; cases h
+        | panic => rw [h4] at h; cases h
+      | error c => rw [h3] at h; cases h
+      | panic => rw [h3] at h; cases h
+    | error c => rw [h2] at h; cases h
+    | panic => rw [h2] at h; cases h
+  | error c => rw [h1] at h; cases h
+  | panic => rw [h1] at h; cases h
+
+theorem aux_trace_close (e : Env F) (m m1 : MS F) (hinv : m.requests = 0 ↔ m.est = none) (h : msClose e m = .ok m1) :
+    runEst e m.est (if m.est.isSome then List.replicate 4 EstOp.process else []) = .ok m1.est ∧ m1.requests = m.requests ∧
+    m1.est.isSome = m.est.isSome := by
+  unfold msClose at h
+  by_cases hreq : m.requests = 0
+  · simp only [hreq, ↓reduceIte, Outcome.ok.injEq] at h
+    subst h
+    have : m.est = none := hinv.mp hreq
+    simp [this, runEst]
+  · simp only [hreq, ↓reduceIte] at h
+    have hs : m.est.isSome = true := by
+      cases hm : m.est with
+      | none => exact absurd (hinv.mpr hm) hreq
+      | some t => rfl
+    obtain ⟨a1, a2, a3⟩ := aux_trace_closeQuantiles e { m with duration := (m.latest.getD 0) - (m.earliest.getD 0), rateNormalised := decide ((m.latest.getD 0) - (m.earliest.getD 0) > 0) } m1 hs h
+    simp only [hs, ↓reduceIte]
+    exact ⟨a1, a2, a3⟩
+
+/-- **(refinement: every sample reaches the estimator exactly once, in nanoseconds, in order)** For every
+call sequence that runs, the estimator of the final Metrics state is what the estimator-level trace
+`estTrace` produces from nothing: one `Add(float64(latency), 1)` per `Metrics.Add`, in arrival order, and
+`process()` calls for the queries — no other operation, no batching, no unit change, no re-feeding. -/
+theorem aux_trace_runFrom (e : Env F) (ops : List (Op F)) : ∀ (m m' : MS F) (os : List (Obs F)),
+    (m.requests = 0 ↔ m.est = none) → runFrom e m ops = .ok (m', os) →
+    runEst e m.est (estTrace e.ladder.length m.est.isSome ops) = .ok m'.est := by
+  induction ops with
+  | nil =>
+    intro m m' os _ h
+    simp only [runFrom, Outcome.ok.injEq, Prod.mk.injEq] at h
+    obtain ⟨h1, _⟩ := h; subst h1; rfl
+  | cons op ops ih =>
+    intro m m' os hinv h
+    simp only [runFrom] at h
+    cases hs : step e m op with
+    | ok x =>
+      obtain ⟨m1, o⟩ := x
+      rw [hs] at h; simp only at h
+      cases hr : runFrom e m1 ops with
+      | ok y =>
+        obtain ⟨m2, os'⟩ := y
+        rw [hr] at h
+        simp only [Outcome.ok.injEq, Prod.mk.injEq] at h
+        obtain ⟨h1, _⟩ := h; subst h1
+        cases op with
+        | add l ts =>
+          simp only [step] at hs
+          cases ha : msAdd e m l ts with
+          | ok m1a =>
+            rw [ha] at hs; simp only [Outcome.ok.injEq, Prod.mk.injEq] at hs
+            obtain ⟨hs1, _⟩ := hs; subst hs1
+            obtain ⟨a1, a2, a3⟩ := aux_trace_add e m m1a l ts ha
+            have hinv1 : m1a.requests = 0 ↔ m1a.est = none := by
+              constructor
+              · intro h0; omega
+              · intro hn; rw [hn] at a3; cases a3
+            have := ih m1a m2 os' hinv1 hr
+            rw [a3] at this
+            simp only [estTrace]
+            have happ := aux_runEst_append e [EstOp.add (QOps.ofInt l)] (estTrace e.ladder.length true ops) m.est m1a.est a1
+            simp only [List.singleton_append] at happ
+            rw [happ]; exact this
+          | error c => rw [ha] at hs; cases hs
+          | panic => rw [ha] at hs; cases hs
+        | close =>
+          simp only [step] at hs
+          cases hc : msClose e m with
+          | ok m1a =>
+            rw [hc] at hs; simp only [Outcome.ok.injEq, Prod.mk.injEq] at hs
+            obtain ⟨hs1, _⟩ := hs; subst hs1
+            obtain ⟨a1, a2, a3⟩ := aux_trace_close e m m1a hinv hc
+            have hinv1 : m1a.requests = 0 ↔ m1a.est = none := by
+              rw [a2, hinv]
+              cases h1 : m1a.est <;> cases h2 : m.est <;> simp_all
+            have := ih m1a m2 os' hinv1 hr
+            rw [a3] at this
+            simp only [estTrace]
+            rw [aux_runEst_append e _ _ _ _ a1]; exact this
+          | error c => rw [hc] at hs; cases hs
+          | panic => rw [hc] at hs; cases hs
+        | quantile q =>
+          simp only [step] at hs
+          cases hq : lmQuantile e m q with
+          | ok z =>
+            obtain ⟨m1a, d⟩ := z
+            rw [hq] at hs; simp only [Outcome.ok.injEq, Prod.mk.injEq] at hs
+            obtain ⟨hs1, _⟩ := hs; subst hs1
+            obtain ⟨a1, a2, a3⟩ := aux_trace_quantile e m m1a q d hq
+            have hinv1 : m1a.requests = 0 ↔ m1a.est = none := by
+              rw [a2, hinv]
+              cases h1 : m1a.est <;> cases h2 : m.est <;> simp_all
+            have := ih m1a m2 os' hinv1 hr
+            rw [a3] at this
+            simp only [estTrace]
+            rw [aux_runEst_append e _ _ _ _ a1]; exact this
+          | error c => rw [hq] at hs; cases hs
+          | panic => rw [hq] at hs; cases hs
+        | hdr =>
+          simp only [step] at hs
+          cases hh : hdrReport e m with
+          | ok z =>
+            obtain ⟨m1a, rs⟩ := z
+            rw [hh] at hs; simp only [Outcome.ok.injEq, Prod.mk.injEq] at hs
+            obtain ⟨hs1, _⟩ := hs; subst hs1
+            unfold hdrReport at hh
+            obtain ⟨a1, a2, a3⟩ := aux_trace_rows e _ m m1a rs hh
+            simp only [List.length_map] at a1
+            have hinv1 : m1a.requests = 0 ↔ m1a.est = none := by
+              rw [a2, hinv]
+              cases h1 : m1a.est <;> cases h2 : m.est <;> simp_all
+            have := ih m1a m2 os' hinv1 hr
+            rw [a3] at this
+            simp only [estTrace]
+            rw [aux_runEst_append e _ _ _ _ a1]; exact this
+          | error c => rw [hh] at hs; cases hs
+          | panic => rw [hh] at hs; cases hs
+      | error c => rw [hr] at h; cases h
+      | panic => rw [hr] at h; cases h
+    | error c => rw [hs] at h; cases h
+    | panic => rw [hs] at h; cases h
+
+theorem seq_estimator_sees_each_sample_once (e : Env F) (ops : List (Op F)) (m : MS F) (os : List (Obs F))
+    (h : run e ops = .ok (m, os)) :
+    runEst e none (estTrace e.ladder.length false ops) = .ok m.est :=
+  aux_trace_runFrom e ops MS.init m os (by simp [MS.init]) h
+
+end trace2
+
+/-! ### what queries change, and what they do not -/
+
+section purity
+variable {F : Type} [QOps F]
+
+/-- a `Quantile` call changes no field but the estimator -/
+theorem quantile_touches_only_the_estimator (e : Env F) (m m1 : MS F) (q : F) (d : Int) (h : lmQuantile e m q = .ok (m1, d)) :
+    m1 = { m with est := m1.est } := by
+  unfold lmQuantile at h
+  cases hm : m.est with
+  | none =>
+    rw [hm] at h; simp only [Outcome.ok.injEq, Prod.mk.injEq] at h
+    obtain ⟨h1, _⟩ := h; subst h1; cases m; simp_all
+  | some t =>
+    rw [hm] at h; simp only at h
+    cases hq : quantileTD e.lim e.sortBy t q with
+    | ok x =>
+      obtain ⟨t', r⟩ := x
+      rw [hq] at h; simp only [Outcome.ok.injEq, Prod.mk.injEq] at h
+      obtain ⟨h1, _⟩ := h; subst h1; rfl
+    | error c => rw [hq] at h; cases h
+    | panic => rw [hq] at h; cases h
+
+/-- an HDR report changes no field but the estimator -/
+theorem hdr_touches_only_the_estimator (e : Env F) (m m1 : MS F) (rs : List (HdrRow F)) (h : hdrReport e m = .ok (m1, rs)) :
+    m1 = { m with est := m1.est } := by
+  unfold hdrReport at h
+  generalize (e.ladder.map fun x => match x with | (n, dn) => (lit n dn : F)) = qs at h
+  induction qs generalizing m m1 rs with
+  | nil =>
+    simp only [hdrRowsSeq, Outcome.ok.injEq, Prod.mk.injEq] at h
+    obtain ⟨h1, _⟩ := h; subst h1; cases m; rfl
+  | cons q qs ih =>
+    simp only [hdrRowsSeq] at h
+    cases hq : lmQuantile e m q with
+    | ok x =>
+      obtain ⟨m2, d⟩ := x
+      rw [hq] at h; simp only at h
+      cases hr : hdrRowsSeq e m2 qs with
+      | ok y =>
+        obtain ⟨m3, rs'⟩ := y
+        rw [hr] at h
+        simp only [Outcome.ok.injEq, Prod.mk.injEq] at h
+        obtain ⟨h1, _⟩ := h; subst h1
+        have a := quantile_touches_only_the_estimator e m m2 q d hq
+        have b := ih m2 m3 rs' hr
+        rw [b, a]
+      | error c => rw [hr] at h; cases h
+      | panic => rw [hr] at h; cases h
+    | error c => rw [hq] at h; cases h
+    | panic => rw [hq] at h; cases h
+
+end purity
+
+def cexEnv : Env F64 :=
+  { cfg := ⟨10, 100, F64.ofNat 1000, F64.ofInt (-1000)⟩,
+    lim := ⟨fun _ => F64.ofNat 2, fun soFar _ => F64.add soFar (F64.ofNat 2)⟩,   -- at most weight 2 per centroid
+    sortBy := sortByMean, trunc := F64.toInt64, ladder := [(0, 1), (1, 2), (1, 1)] }
+
+def lastClosed : Outcome (MS F64 × List (Obs F64)) → Option (List Int)
+  | .ok (_, os) => match os.getLast? with
+    | some (.closed a b c d e f) => some [a, b, c, d, e, f]
+    | _ => none
+  | _ => none
+
+/-- **Queries are NOT observationally pure** (and this is the code's behaviour, not the model's): a
+`Quantile` call compacts the pending samples, and centroids never split again, so deleting a query from
+a history can change later answers.  Latencies 1, 3, 2 (SoftF64; a limit function allowing weight 2 per
+centroid): without the intermediate `Quantile` the final Close reports P90 = P95 = P99 = 3; with it, 1 and
+3 were merged into the centroid (2, w 2) before 2 arrived, the digest's `max` became the MEAN 2, and the
+same Close reports P90 = P95 = P99 = 2 — below the reported `Max` = 3.  What IS invariant under queries is
+`seq_invariant` (count, range of means, `min`/`max` bounds, sortedness) and everything that follows from it
+(`seq_close_after_any_history`, `seq_hdr_after_any_history`). -/
+theorem queries_change_later_answers :
+    lastClosed (run cexEnv [.add 1 0, .add 3 1, .add 2 2, .close]) = some [1, 2, 3, 3, 3, 3] ∧
+    lastClosed (run cexEnv [.add 1 0, .add 3 1, .quantile (lit 1 2), .add 2 2, .close]) = some [1, 2, 2, 2, 2, 3] ∧
+    addsOnly ([.add 1 0, .add 3 1, .quantile (lit 1 2), .add 2 2, .close] : List (Op F64)) =
+      addsOnly ([.add 1 0, .add 3 1, .add 2 2, .close] : List (Op F64)) := by
+  refine ⟨by decide +kernel, by decide +kernel, rfl⟩
+
+/-! ### few samples: the ordering clause needs no side condition -/
+
+section count
+variable {F : Type} [QOps F]
+
+theorem aux_merge_length (next : F → F → F) (W : F) : ∀ (rest acc : List (Centroid F)) (cur : Centroid F) (soFar limit : F),
+    (mergeLoop next W acc cur soFar limit rest).length ≤ acc.length + 1 + rest.length := by
+  intro rest
+  induction rest with
+  | nil => intro acc cur _ _; simp [mergeLoop]
+  | cons c rest ih =>
+    intro acc cur soFar limit
+    simp only [mergeLoop]
+    split
+    · have := ih acc (centroidAdd cur c) (QOps.add soFar c.weight) limit
+      simp only [List.length_cons]; omega
+    · have := ih (cur :: acc) c (QOps.add soFar c.weight) (next soFar W)
+      simp only [List.length_cons] at this ⊢; omega
+
+def centroidCount (o : Option (TD F)) : Nat :=
+  match o with
+  | none => 0
+  | some t => t.processed.length + t.unprocessed.length
+
+theorem aux_process_count (lim : Lim F) (sortBy : List (Centroid F) → List (Centroid F))
+    (hlen : ∀ l, (sortBy l).length = l.length) (t t' : TD F) (h : process lim sortBy t = .ok t') :
+    t'.processed.length + t'.unprocessed.length ≤ t.processed.length + t.unprocessed.length := by
+  unfold process at h
+  split at h
+  · cases hall : sortBy (t.unprocessed ++ t.processed) with
+    | nil => rw [hall] at h; cases h
+    | cons c0 rest =>
+      rw [hall] at h
+      simp only at h
+      have hl := hlen (t.unprocessed ++ t.processed)
+      rw [hall] at hl
+      simp only [List.length_cons, List.length_append] at hl
+      have hm := aux_merge_length lim.next (QOps.add t.processedWeight t.unprocessedWeight) rest [] c0 c0.weight
+        (lim.init (QOps.add t.processedWeight t.unprocessedWeight))
+      generalize mergeLoop lim.next (QOps.add t.processedWeight t.unprocessedWeight) [] c0 c0.weight
+        (lim.init (QOps.add t.processedWeight t.unprocessedWeight)) rest = out at h hm
+      split at h
+      · simp only [Outcome.ok.injEq] at h
+        subst h
+        simp only [List.length_nil] at hm ⊢
+        omega
+      · cases h
+  · simp only [Outcome.ok.injEq] at h; subst h; exact Nat.le_refl _
+
+theorem aux_runEst_count (e : Env F) (hlen : ∀ l, (e.sortBy l).length = l.length) (tr : List (EstOp F)) :
+    ∀ (o o' : Option (TD F)), runEst e o tr = .ok o' →
+    centroidCount o' ≤ centroidCount o + (tr.filter (fun x => match x with | .add _ => true | .process => false)).length := by
+  induction tr with
+  | nil => intro o o' h; simp only [runEst, Outcome.ok.injEq] at h; subst h; simp
+  | cons x tr ih =>
+    intro o o' h
+    cases x with
+    | add v =>
+      simp only [runEst] at h
+      cases ha : Vegeta.Model.TDigestMerge.add e.lim e.sortBy (estOrNew e o) v (QOps.ofNat 1) with
+      | ok t =>
+        rw [ha] at h; simp only at h
+        have := ih (some t) o' h
+        have hct : ∀ u : TD F, centroidCount (some u) = u.processed.length + u.unprocessed.length := fun _ => rfl
+        have hc : centroidCount (some t) ≤ centroidCount o + 1 := by
+          have h0 : (estOrNew e o).processed.length + (estOrNew e o).unprocessed.length = centroidCount o := by
+            cases o <;> simp [estOrNew, centroidCount, TD.init]
+          rw [hct, ← h0]
+          unfold Vegeta.Model.TDigestMerge.add at ha
+          split at ha
+          · simp only [Outcome.ok.injEq] at ha; subst ha; omega
+          · simp only at ha
+            split at ha
+            · have := aux_process_count e.lim e.sortBy hlen _ t ha
+              simp only [List.length_append, List.length_singleton] at this
+              omega
+            · simp only [Outcome.ok.injEq] at ha; subst ha
+              simp only [List.length_append, List.length_singleton]; omega
+        simp only [List.filter_cons, ↓reduceIte, List.length_cons]
+        omega
+      | error c => rw [ha] at h; cases h
+      | panic => rw [ha] at h; cases h
+    | process =>
+      cases o with
+      | none =>
+        simp only [runEst] at h
+        have := ih none o' h
+        simpa [List.filter_cons] using this
+      | some t =>
+        simp only [runEst] at h
+        cases hp : process e.lim e.sortBy t with
+        | ok t' =>
+          rw [hp] at h; simp only at h
+          have := ih (some t') o' h
+          have hc := aux_process_count e.lim e.sortBy hlen t t' hp
+          have hct : ∀ u : TD F, centroidCount (some u) = u.processed.length + u.unprocessed.length := fun _ => rfl
+          rw [hct] at this ⊢
+          simp only [List.filter_cons, Bool.false_eq_true, ↓reduceIte]
+          omega
+        | error c => rw [hp] at h; cases h
+        | panic => rw [hp] at h; cases h
+
+theorem aux_trace_adds (n : Nat) (ops : List (Op F)) : ∀ has : Bool,
+    ((estTrace n has ops).filter (fun x => match x with | .add _ => true | .process => false)).length = (added ops).length := by
+  induction ops with
+  | nil => intro has; simp [estTrace, added]
+  | cons op ops ih =>
+    intro has
+    cases op with
+    | add l ts => simp [estTrace, added, ih true]
+    | close => by_cases h : has <;> simp [estTrace, added, h, ih, List.filter_append, List.filter_replicate]
+    | quantile q => by_cases h : has <;> simp [estTrace, added, h, ih, List.filter_append]
+    | hdr => by_cases h : has <;> simp [estTrace, added, h, ih, List.filter_append, List.filter_replicate]
+
+end count
+
+/-- **With at most `maxProcessed` samples the side condition of the ordering clause holds by itself**:
+the digest never holds more centroids than samples were added, so after any history with at most
+`maxProcessed` (= 200) Adds the next `process()` leaves at most `maxProcessed` centroids. -/
+theorem stable_when_few_samples (e : Env K) (he : EnvOK e) (ops : List (Op K)) (hok : OpsOK e ops)
+    (hfew : (added ops).length ≤ e.cfg.maxP) (m : MS K) (os : List (Obs K)) (hrun : run e ops = .ok (m, os)) :
+    StableNext e m := by
+  intro t t1 ht hp
+  obtain ⟨m', os', hrun', hg, _⟩ := seq_invariant e he ops hok
+  rw [hrun] at hrun'
+  simp only [Outcome.ok.injEq, Prod.mk.injEq] at hrun'
+  obtain ⟨hm, _⟩ := hrun'
+  subst hm
+  have hlen : ∀ l, (e.sortBy l).length = l.length := fun l => (he.sort.perm l).length_eq
+  have htr := seq_estimator_sees_each_sample_once e ops m os hrun
+  have hcnt := aux_runEst_count e hlen _ none m.est htr
+  rw [aux_trace_adds, ht] at hcnt
+  simp only [centroidCount, Nat.zero_add] at hcnt
+  have hpc := aux_process_count e.lim e.sortBy hlen t t1 hp
+  obtain ⟨hinv, hP, _⟩ := hg.inv t ht
+  obtain ⟨_, hp2, _, _, hP', _, _⟩ := process_preserves_invariant e.lim e.sortBy he.sort e.cfg.hi e.cfg.lo _ t hinv
+  rw [hp] at hp2; cases hp2
+  rw [hP', hP]
+  omega
+
+/-! ### non-vacuity of the sequence theorems -/
+
+/-- an environment over ℚ meeting `EnvOK`: vegeta's configuration (200 / 800), the ladder regenerated
+from the source, `⌊·⌋` as the conversion, merge sort, and some limit function -/
+def exEnv : Env ℚ :=
+  { cfg := ⟨200, 800, 10 ^ 30, -10 ^ 30⟩, lim := ⟨fun W => W / 100, fun soFar W => soFar + W / 50⟩,
+    sortBy := fun l => l.mergeSort (fun a b => decide (a.mean ≤ b.mean)),
+    trunc := fun x => ⌊x⌋, ladder := Vegeta.Extracted.c11_ladder }
+
+example : EnvOK exEnv :=
+  ⟨sortSpec_mergeSort, fun _ _ h => Int.floor_mono h, fun i => Int.floor_intCast i, ladder_sorted.1⟩
+
+/-- a history with intermediate Close, HDR report and Quantile calls satisfies `OpsOK`, adds something,
+and (three samples ≤ 200) meets the side condition of the ordering clause at its end -/
+example :
+    let ops : List (Op ℚ) := [.add 5 0, .close, .add 3 1, .hdr, .quantile (1 / 2), .add 5 1, .close]
+    OpsOK exEnv ops ∧ added ops ≠ [] ∧ exEnv.ladder ≠ [] ∧
+    ∃ m os, run exEnv ops = .ok (m, os) ∧ StableNext exEnv m := by
+  have hok : OpsOK exEnv [.add 5 0, .close, .add 3 1, .hdr, .quantile (1 / 2), .add 5 1, .close] := by
+    intro op hop
+    simp only [List.mem_cons, List.mem_nil_iff, or_false] at hop
+    rcases hop with h | h | h | h | h | h | h <;> subst h <;> simp only [OpOK, exEnv] <;> norm_num
+  have hE : EnvOK exEnv := ⟨sortSpec_mergeSort, fun _ _ h => Int.floor_mono h, fun i => Int.floor_intCast i, ladder_sorted.1⟩
+  refine ⟨hok, by simp [added], by simp [exEnv, Vegeta.Extracted.c11_ladder], ?_⟩
+  obtain ⟨m, os, hrun, _, _⟩ := seq_invariant exEnv hE _ hok
+  exact ⟨m, os, hrun, stable_when_few_samples exEnv hE _ hok (by simp [added, exEnv]) m os hrun⟩
+
+/-- `close_percentiles_whatever_the_duration` / `hdr_report_pure`: states with an estimator and a request
+exist, settled ones too (one centroid, nothing pending) -/
+example : ∃ (m : MS ℚ) (t : TD ℚ), m.requests ≠ 0 ∧ m.est = some t ∧ Settled t :=
+  ⟨{ (MS.init : MS ℚ) with requests := 1, est := some ⟨[⟨5, 1⟩], [], 1, 0, 5, 5, 200, 800⟩ }, _, by simp, rfl, rfl, by simp⟩
 
 end Vegeta.Props.C11
